@@ -1903,6 +1903,16 @@ Proof.
   rewrite Ehist. apply in_procs. rewrite procs_flat, map_app. apply in_or_app. right. apply in_map. exact Hgg.
 Qed.
 
+(* C05 across the whole run: after every script every LP's state is the handlers folded over the history the related abstract state
+   records for it (what fossil collection released followed by what is retained) -- whatever rollbacks, restores and silent
+   re-executions happened on the way *)
+Theorem worker_state_is_fold_of_history (ops : list wop) :
+  let w := fold_left (wstep p ck) ops (w_init p) in
+  exists a, R w a /\ forall l, l < n -> x_st (get_lp w l) = Abs.stof cont lpstate (AppAbs.s0 p) (ahandle p) l (Abs.hist cont a l).
+Proof.
+  intros w. destruct (worker_refines_abstract ops) as (a & Hr). fold w in Hr. exists a. split; [exact Hr|]. intros l Hl. apply R_state; assumption.
+Qed.
+
 (* C01 on states: at quiescence every LP's state is the state the sequential execution leaves it in *)
 Theorem worker_quiescent_state_is_sequential (ops : list wop) :
   let w := fold_left (wstep p ck) ops (w_init p) in
